@@ -5,6 +5,7 @@ package main
 // accept queue is full (connect stalls), and a peer that accepts and never reads.
 
 import (
+	"context"
 	"crypto/tls"
 	"encoding/binary"
 	"fmt"
@@ -60,6 +61,7 @@ type c09Peer struct {
 	acts               []c09Act
 	mode               string      // accept | accept-close | noread | noread-early | tls | tls-slow | tls-silent | tls-untrusted
 	tlsConf            *tls.Config // tls modes: the server side configuration
+	smallBuf           bool        // tiny receive buffer on the accepted sockets
 	sweepT, sweepCalls int         // action "sweep": the callers' timeout in ms, calls per caller
 	hsMs               int         // tls-slow: the peer starts its side of the handshake this long after accepting
 	earlyMs            int         // noread-early: after this delay the peer writes a reply for each of the ids 1..earlyN
@@ -151,7 +153,13 @@ func newC09Peer(log *c09Log, conn string, acts []c09Act, opt func(*c09Peer)) (*c
 		go p.serveUDP()
 		return p, nil
 	}
-	ln, err := net.Listen("tcp", "127.0.0.1:0")
+	lc := net.ListenConfig{}
+	if p.smallBuf {
+		lc.Control = func(network, address string, rc syscall.RawConn) error {
+			return rc.Control(func(fd uintptr) { syscall.SetsockoptInt(int(fd), syscall.SOL_SOCKET, syscall.SO_RCVBUF, 4096) })
+		}
+	}
+	ln, err := lc.Listen(context.Background(), "tcp", "127.0.0.1:0")
 	if err != nil {
 		return nil, err
 	}
@@ -213,7 +221,7 @@ func (p *c09Peer) acceptLoop() {
 		case "accept-close":
 			p.log.add(c09Event{Kind: "close", Call: -1})
 			c.Close()
-		case "noread":
+		case "noread", "transport-race":
 			// keep the connection, never read from it
 		case "noread-early":
 			// never read; answer requests that were never received: request ids are predictable (1, 2, ...), so these
